@@ -1113,14 +1113,81 @@ package serf
 //@ func (s *serfQueries) handleConflict(q *Query)
 //@   requires wf: wfInternalQuery(s, q)
 //@ end
+// ---------------------------------------------------------------- keyring changes and the keyring file (C22)
+
+// the keyring itself is memberlist's: its operations accept or reject a key; their calls are logged
+//@ func (k *memberlist.Keyring) AddKey(key []byte) (err error)
+//@   trusted
+//@   logcalls keyring
+//@   assigns
+//@ end
+//@ func (k *memberlist.Keyring) UseKey(key []byte) (err error)
+//@   trusted
+//@   logcalls keyring
+//@   assigns
+//@ end
+//@ func (k *memberlist.Keyring) RemoveKey(key []byte) (err error)
+//@   trusted
+//@   logcalls keyring
+//@   assigns
+//@ end
+
 //@ func (s *serfQueries) handleInstallKey(q *Query)
 //@   requires wf: wfInternalQuery(s, q)
+//@   oldlet k0 := callNOf("keyring")
+//@   oldlet f0 := callNOf("keyringfile")
+//@   oldlet r0 := callNOf("keyresponse")
+//@   oldlet okreq := len(q.Payload) >= 1 && decodeOK[keyRequest](q.Payload[1:])
+//@   oldlet enabled := s.serf.config.MemberlistConfig.Keyring != nil
+//@   # a request that cannot be decoded, or arrives while encryption is off, touches neither the keyring nor the file
+//@   ensures invalid_request_no_effect [C22]: !okreq || !enabled ==> callNOf("keyring") == k0 && callNOf("keyringfile") == f0
+//@   # the keyring is asked at most once, and the file is written only after the keyring accepted the change
+//@   ensures at_most_one_change [C22]: callNOf("keyring") <= k0+1 && callNOf("keyringfile") <= f0+1
+//@   ensures rejected_change_not_persisted [C22]: callNOf("keyring") == k0+1 && !callRetOf("keyring", k0) ==> callNOf("keyringfile") == f0
+//@   ensures file_only_after_accepted_change [C22]: callNOf("keyringfile") == f0+1 ==> callNOf("keyring") == k0+1 && callRetOf("keyring", k0)
+//@   ensures accepted_change_persisted [C22]: okreq && enabled && callNOf("keyring") == k0+1 && callRetOf("keyring", k0) && s.serf.config.KeyringFile != "" ==> callNOf("keyringfile") == f0+1
+//@   # exactly one answer; it reports success only when the keyring changed and the file (if any) was written
+//@   ensures one_answer [C22,C23]: callNOf("keyresponse") == r0+1
+//@   ensures success_means_changed_and_persisted [C22]: callArg2Of[*nodeKeyResponse]("keyresponse", r0).Result ==>
+//@       callNOf("keyring") == k0+1 && callRetOf("keyring", k0) && (callNOf("keyringfile") == f0+1 ==> callRetOf("keyringfile", f0))
 //@ end
 //@ func (s *serfQueries) handleUseKey(q *Query)
 //@   requires wf: wfInternalQuery(s, q)
+//@   oldlet k0 := callNOf("keyring")
+//@   oldlet f0 := callNOf("keyringfile")
+//@   oldlet r0 := callNOf("keyresponse")
+//@   oldlet okreq := len(q.Payload) >= 1 && decodeOK[keyRequest](q.Payload[1:])
+//@   oldlet enabled := s.serf.config.MemberlistConfig.Keyring != nil
+//@   # a request that cannot be decoded, or arrives while encryption is off, touches neither the keyring nor the file
+//@   ensures invalid_request_no_effect [C22]: !okreq || !enabled ==> callNOf("keyring") == k0 && callNOf("keyringfile") == f0
+//@   # the keyring is asked at most once, and the file is written only after the keyring accepted the change
+//@   ensures at_most_one_change [C22]: callNOf("keyring") <= k0+1 && callNOf("keyringfile") <= f0+1
+//@   ensures rejected_change_not_persisted [C22]: callNOf("keyring") == k0+1 && !callRetOf("keyring", k0) ==> callNOf("keyringfile") == f0
+//@   ensures file_only_after_accepted_change [C22]: callNOf("keyringfile") == f0+1 ==> callNOf("keyring") == k0+1 && callRetOf("keyring", k0)
+//@   ensures accepted_change_persisted [C22]: okreq && enabled && callNOf("keyring") == k0+1 && callRetOf("keyring", k0) && true ==> callNOf("keyringfile") == f0+1
+//@   # exactly one answer; it reports success only when the keyring changed and the file (if any) was written
+//@   ensures one_answer [C22,C23]: callNOf("keyresponse") == r0+1
+//@   ensures success_means_changed_and_persisted [C22]: callArg2Of[*nodeKeyResponse]("keyresponse", r0).Result ==>
+//@       callNOf("keyring") == k0+1 && callRetOf("keyring", k0) && (callNOf("keyringfile") == f0+1 ==> callRetOf("keyringfile", f0))
 //@ end
 //@ func (s *serfQueries) handleRemoveKey(q *Query)
 //@   requires wf: wfInternalQuery(s, q)
+//@   oldlet k0 := callNOf("keyring")
+//@   oldlet f0 := callNOf("keyringfile")
+//@   oldlet r0 := callNOf("keyresponse")
+//@   oldlet okreq := len(q.Payload) >= 1 && decodeOK[keyRequest](q.Payload[1:])
+//@   oldlet enabled := s.serf.config.MemberlistConfig.Keyring != nil
+//@   # a request that cannot be decoded, or arrives while encryption is off, touches neither the keyring nor the file
+//@   ensures invalid_request_no_effect [C22]: !okreq || !enabled ==> callNOf("keyring") == k0 && callNOf("keyringfile") == f0
+//@   # the keyring is asked at most once, and the file is written only after the keyring accepted the change
+//@   ensures at_most_one_change [C22]: callNOf("keyring") <= k0+1 && callNOf("keyringfile") <= f0+1
+//@   ensures rejected_change_not_persisted [C22]: callNOf("keyring") == k0+1 && !callRetOf("keyring", k0) ==> callNOf("keyringfile") == f0
+//@   ensures file_only_after_accepted_change [C22]: callNOf("keyringfile") == f0+1 ==> callNOf("keyring") == k0+1 && callRetOf("keyring", k0)
+//@   ensures accepted_change_persisted [C22]: okreq && enabled && callNOf("keyring") == k0+1 && callRetOf("keyring", k0) && true ==> callNOf("keyringfile") == f0+1
+//@   # exactly one answer; it reports success only when the keyring changed and the file (if any) was written
+//@   ensures one_answer [C22,C23]: callNOf("keyresponse") == r0+1
+//@   ensures success_means_changed_and_persisted [C22]: callArg2Of[*nodeKeyResponse]("keyresponse", r0).Result ==>
+//@       callNOf("keyring") == k0+1 && callRetOf("keyring", k0) && (callNOf("keyringfile") == f0+1 ==> callRetOf("keyringfile", f0))
 //@ end
 //@ func (s *serfQueries) handleListKeys(q *Query)
 //@   requires wf: wfInternalQuery(s, q)
@@ -1128,11 +1195,13 @@ package serf
 //@   loop 1 invariant bounds: -1 <= ri && len(response.Keys) >= 0 && (nilSlice(response.Keys) ==> len(response.Keys) == 0)
 //@ end
 //@ func (s *Serf) writeKeyringFile() (err error)
+//@   logcalls keyringfile
 //@   requires wf: s != nil && s.config != nil && s.config.MemberlistConfig != nil
 //@   loop 1 vars i=rangeindex int, keysEncoded []string, keysRaw [][]byte
 //@   loop 1 invariant bounds: -1 <= i && len(keysEncoded) == len(keysRaw) && arrayAllocated(keysEncoded)
 //@ end
 //@ func (s *serfQueries) sendKeyResponse(q *Query, resp *nodeKeyResponse)
+//@   logcalls keyresponse
 //@   requires wf: wfInternalQuery(s, q) && resp != nil && allocated(resp) && len(resp.Keys) >= 0 && (nilSlice(resp.Keys) ==> len(resp.Keys) == 0)
 //@ end
 //@ func (s *serfQueries) keyListResponseWithCorrectSize(q *Query, resp *nodeKeyResponse) (raw []byte, qresp messageQueryResponse, err error)
@@ -1146,6 +1215,7 @@ package serf
 //@ end
 //@ func decodeKeyRequest(q *Query, req *keyRequest) (err error)
 //@   requires wf: q != nil && req != nil
+//@   ensures decodes_or_fails [C22,C09]: (err == nil) == (len(q.Payload) >= 1 && decodeOK[keyRequest](q.Payload[1:]))
 //@ end
 
 // state sync: the remote state is whatever the peer sent
@@ -1363,9 +1433,13 @@ package serf
 //@ func (s *Snapshotter) compact() (err error)
 //@   requires wf: wfSnap(s)
 //@   ensures handles_never_nil [C12]: wfSnap(s)
+//@   # recording resumes once the fault has cleared: a compaction during which no file operation fails for reasons of its
+//@   # own succeeds and leaves an open file behind, whatever state an earlier failure left the handles in (closing the
+//@   # old, possibly already closed, handle is not allowed to stop it)
+//@   ensures succeeds_when_io_does [C12]: libFailN() == old(libFailN()) ==> err == nil && !fileClosed(s.fh)
 //@   ensures memory_untouched [C12]: s.lastClock == old(s.lastClock) && s.lastEventClock == old(s.lastEventClock) && s.lastQueryClock == old(s.lastQueryClock) &&
 //@       same(s.aliveNodes, old(s.aliveNodes)) && forall(func(k string) bool { return snapMemory(s, k) == old(snapMemory(s, k)) && mapAt(s.aliveNodes, k) == old(mapAt(s.aliveNodes, k)) })
-//@   loop 1 invariant handles [C12]: wfSnap(s)
+//@   loop 1 invariant handles [C12]: wfSnap(s) && libFailN() >= old(libFailN())
 //@ end
 //@ func (s *Snapshotter) appendLine(l string) (err error)
 //@   requires wf: wfSnap(s)
@@ -1426,6 +1500,18 @@ package serf
 //@   ensures cutoffs_restored [C14]: err == nil && s.snapshotter != nil ==>
 //@       s.eventMinTime == s.snapshotter.lastEventClock+1 && s.queryMinTime == s.snapshotter.lastQueryClock+1
 //@   ensures snapshot_used_when_configured [C14]: err == nil && old(conf.SnapshotPath) != "" ==> s.snapshotter != nil
+//@ end
+
+// the counts a node reports are the lengths of the lists the bookkeeping invariant is about (C15)
+//@ import "strconv"
+//@ func (s *Serf) Stats() (ret map[string]string)
+//@   requires wf: s != nil && s.config != nil && s.config.MemberlistConfig != nil && s.memberlist != nil && s.broadcasts != nil && s.eventBroadcasts != nil && s.queryBroadcasts != nil &&
+//@       (!s.config.DisableCoordinates ==> s.coordClient != nil)
+//@   ensures reported_counts_are_the_lists [C15]: ret != nil &&
+//@       mapHas(ret, "failed") && mapAt(ret, "failed") == strconv.FormatUint(uint64(len(s.failedMembers)), 10) &&
+//@       mapHas(ret, "left") && mapAt(ret, "left") == strconv.FormatUint(uint64(len(s.leftMembers)), 10) &&
+//@       mapHas(ret, "members") && mapAt(ret, "members") == strconv.FormatUint(uint64(len(s.members)), 10)
+//@   ensures lists_untouched [C15]: sameSlice(s.failedMembers, old(s.failedMembers)) && sameSlice(s.leftMembers, old(s.leftMembers))
 //@ end
 
 // END-OF-CONTRACTS
